@@ -425,6 +425,56 @@ def run_env(case, agg):
         agg.ok(key, "ok:from_envelope", sample={"eb": eb, "names": case["names"], "len": case["len"]})
 
 
+# -- the real CLI ---------------------------------------------------------------------------------------------
+
+def cli_cases(tier):
+    return [{"sub": sub, "eb": eb} for sub in ("from_payloads", "merge", "from_envelope") for eb in (None, "1", "8", "64", "4096")]
+
+
+def run_cli(case, agg):
+    from .. import impl
+    eb = int(case["eb"]) if case["eb"] else 16          # documented default
+    ebarg = ["--eb-size", case["eb"]] if case["eb"] else []
+    with fresh_dir("c10cli") as d:
+        out = os.path.join(d, "c.bin")
+        pairs = [("file://a.bin", payload(37, 1)), ("cache://zażółć/€", payload(0, 2)), ("#c", payload(300, 3))]
+        files = []
+        for i, (u, p) in enumerate(pairs):
+            f = os.path.join(d, f"p{i}.bin")
+            open(f, "wb").write(p)
+            files.append(f)
+        if case["sub"] == "from_payloads":
+            args = ["cache_create", "from_payloads", "--output-file", out] + ebarg
+            for (u, _), f in zip(pairs, files):
+                args += ["--input", f"{u},{f}"]
+        elif case["sub"] == "merge":
+            c1, c2 = os.path.join(d, "c1.bin"), os.path.join(d, "c2.bin")
+            cc = _mod()
+            a = cc.CachePartition(4)
+            a.add_cache_slot(*pairs[0])
+            a.close_and_save_cache(c1)
+            b = cc.CachePartition(32)
+            b.add_cache_slot(*pairs[1])
+            b.add_cache_slot(*pairs[2])
+            b.close_and_save_cache(c2)
+            args = ["cache_create", "merge", "--output-file", out, "--input", c1, "--input", c2] + ebarg
+        else:
+            env = refcbor.enc(refcbor.Tag(107, {2: b"\x81\x40", 3: b"\xa0", **{u: p for u, p in pairs}}))
+            ein = os.path.join(d, "in.suit")
+            open(ein, "wb").write(env)
+            args = ["cache_create", "from_envelope", "--output-file", out, "--input-envelope", ein, "--output-envelope", os.path.join(d, "out.suit")] + ebarg
+        rc, so, se = impl.cli(args, d)
+        if rc != 0:
+            agg.viol(f"C10:cli/{case['sub']}-failed", f"{case}: rc={rc} {se[-300:]}")
+            return
+        data = open(out, "rb").read()
+    problems = check_cache(data, eb, pairs)
+    if problems:
+        agg.viol(f"C10:cli/{_classify(problems[0])}", f"{case} (erase block {eb}): " + "; ".join(problems[:3]))
+    else:
+        agg.ok(h8("c10cli", case), f"ok:cli:{case['sub']}", sample=case if case["eb"] is None else None)
+
+
 def plan(tier):
     depth = 4 if tier == "quick" else 6
     return [
@@ -434,6 +484,7 @@ def plan(tier):
                  rule="add-slot histories; alphabet 5 residues x {new, duplicate URI}; eb in {4,16,64}"),
         CaseStage("merge", lambda: merge_cases(tier), run_merge,
                   rule="ordered 1-3 tuples of an 8-cache pool x eb' in {4,16,64}, plus merges of merged caches"),
+        CaseStage("cli", lambda: cli_cases(tier), run_cli, rule="real CLI: three sub-commands x --eb-size {default, 1, 8, 64, 4096}"),
         CaseStage("from_envelope", lambda: env_cases(tier), run_env,
                   rule="synthetic envelopes x eb x payload names x lengths through cmd main from_envelope"),
     ]
